@@ -53,13 +53,13 @@ class Instance:
         if self.const is None:
             raise C.MachineryError("instance %s: no worker can parse the selection" % self.name)
         allw = TestGraph.parse_workers(dict(p))
+        # own restrictions of a worker as the configuration gives them (an eager parse adds the vm restrictions of the run)
+        self.const["restricted"] = [w.id for w in allw if len(w.restrs) > 0]
         for w in allw:
             if w.id not in self.const["workers"]:
                 self.const["workers"].append(w.id)
                 self.const["swarm"][w.id] = w.swarm_id
                 self.const["spawner"][w.id] = w.params.get("nets_spawner", "")
-                if len(w.restrs) > 0:
-                    self.const["restricted"].append(w.id)
         if self.lazy:
             g = TestGraph()
             g.restrs.update(self.vm_strs)
